@@ -49,9 +49,12 @@ add("C01",
     "post-state and model result = real result.",
     "Trusted: Coq kernel, Model/Inventory.v + Model/Staging.v + Model/Commit.v + Model/CommitAbs.v, abs (vplib/absinv.py, vplib/commitabs.py), "
     "harness, ocflv.py. Decided by the search on executed histories only: storage-root files and layout placement (also C11/C12), "
-    "upgrade_object's own staging step, operations under faults (C04/C05), staging operations at tree level. Known finding "
-    "failed-commit-dedup-persisted: a commit refused after its de-duplication step leaves a staged inventory outside the staged "
-    "invariant (classifier Model/KnownC01.v, witness theorem, 4 scripted histories).",
+    "upgrade_object's own staging step, operations under faults (C04/C05), staging operations at tree level. No known finding "
+    "left: the former class failed-commit-dedup-persisted (a commit refused after its de-duplication step left two staged paths "
+    "sharing one file) is repaired by 890d206 - refused commits are part of the model now (Model/RefusedCommit.v: "
+    "C01_refused_commit_keeps_invariant, C01_reachable_valid_with_refused_commits), every refused commit of the histories is "
+    "compared with it (Corr.CheckStage.check_refused_commit) and clause I5 is evaluated on the real staged inventory; the 4 scripted "
+    "histories are must-pass.",
     "machine-checked proof in Coq (invariant by induction over operations) + per-step refinement correspondence + independent validator")
 
 add("C09",
